@@ -1107,9 +1107,16 @@ func (e *Engine) overlay(r io.Reader, basePath string, asNew bool) error {
 		// When files are installed as new ones, a tombstone file has to follow the
 		// TSM file it belongs to: both get the name chosen for their original name.
 		newNames := make(map[string]string)
-		tr := tar.NewReader(r)
+		er := &endMarkerReader{r: r}
+		tr := tar.NewReader(er)
 		for {
 			if fileName, err := e.readFileFromBackup(tr, basePath, asNew, newNames); err == io.EOF {
+				// The tar reader also reports io.EOF when the stream just stops between
+				// two files. Only the end-of-archive marker tells that the sender got
+				// to the end: without it the backup is incomplete and is not installed.
+				if !er.sawEndMarker() {
+					return nil, io.ErrUnexpectedEOF
+				}
 				break
 			} else if err != nil {
 				return nil, err
@@ -1209,6 +1216,27 @@ func (e *Engine) overlay(r io.Reader, basePath string, asNew bool) error {
 	}
 	return nil
 }
+
+// endMarkerReader tracks whether the data read so far ends with the tar
+// end-of-archive marker (two 512-byte blocks of zeros).
+type endMarkerReader struct {
+	r     io.Reader
+	zeros int // number of consecutive zero bytes at the end of the data read so far
+}
+
+func (r *endMarkerReader) Read(p []byte) (int, error) {
+	n, err := r.r.Read(p)
+	for _, b := range p[:n] {
+		if b == 0 {
+			r.zeros++
+		} else {
+			r.zeros = 0
+		}
+	}
+	return n, err
+}
+
+func (r *endMarkerReader) sawEndMarker() bool { return r.zeros >= 2*512 }
 
 // readFileFromBackup copies the next file from the archive into the shard.
 // The file is skipped if it does not have a matching shardRelativePath prefix.
